@@ -22,6 +22,7 @@ type valConfig struct {
 	noRedactable bool // no RedactableString/Bytes/StringBuilder operands
 	noPointers   bool // nothing that prints an address
 	noSafeFmt    bool // no SafeFormatter / SafeMessager (e.g. inside error-hook tests)
+	shareFloats  bool // floats are the same in both instantiations
 	noErrors     bool // no error values (operands printed by an error hook: it would be re-entered forever)
 	maxTok       int
 	reg          map[string]bool // registered kinds (their leaves are public)
@@ -188,7 +189,7 @@ func (c *valConfig) leafI(rt *rapid.T, kind string, pub bool) *Val {
 
 func (c *valConfig) leafF(rt *rapid.T, kind string, pub bool) *Val {
 	v := &Val{K: kind, F: genFloatS(rt, "f"), I: int64(rapid.IntRange(-3, 3).Draw(rt, "im"))}
-	if c.two && !pub {
+	if c.two && !pub && !c.shareFloats {
 		v.G = genFloatS(rt, "g")
 		v.J = int64(rapid.IntRange(-3, 3).Draw(rt, "jm"))
 		v.HasT = true
@@ -254,6 +255,12 @@ func (c *valConfig) pickK(rt *rapid.T, label string, xs []string) string {
 func (c *valConfig) aligned() *valConfig {
 	cc := *c
 	cc.sameLen = true
+	// (numbers too: the text of a nested print can be padded or cut as a
+	// whole by an outer directive - when the redactable is reached by
+	// reflection through an unexported field it is a plain string - so the
+	// number of digits is shape)
+	cc.shareInts = true
+	cc.shareFloats = true
 	return &cc
 }
 
